@@ -155,9 +155,9 @@ def gen_family(rng, hashseeds, tier):
 
 
 def gen_large_family(rng, hashseeds):
-    """Thorough tier only: one mini-batch of ~9000 rows with an identifier-like column, pairwise mode - sizes at which
+    """Thorough tier only: one mini-batch of ~12000 rows with an identifier-like column (~8500 distinct values), pairwise mode - sizes at which
     value-count thresholds inside the kernels (thousands of distinct values) are crossed."""
-    prof = dict(PROFILE, minibatch=[9000], batches=[1], delta=[0], ncols=[3], malformed=[0.0], subsampling=[1], target_only=['False'],
+    prof = dict(PROFILE, minibatch=[12000], batches=[1], delta=[0], ncols=[3], malformed=[0.0], subsampling=[1], target_only=['False'],
                 heuristics=['MI-numba-randomized'], colopts={'kind': ['id', 'lowcard', 'midcard']}, more_runs=0.0)
     base = pipe_common.gen_spec(rng, prof)
     base.pop('poison', None)
@@ -165,7 +165,7 @@ def gen_large_family(rng, hashseeds):
     j = [k for k, h in enumerate(wl['header']) if h != wl['label']][-1]      # last feature column: it is the conditioning side of (other, id) pairs
     for i, ln in enumerate(wl['lines']):
         if ln['ok']:
-            ln['cells'][j] = f'id{i:06d}'          # identifier-like: as many distinct values as rows
+            ln['cells'][j] = f'id{(i * 7919) % 8501:06d}'          # identifier-like: ~8500 distinct values, many of them seen twice
     wl['kinds'][j] = 'id'
     members = []
     for i, p in enumerate([1, 2, 4, 16]):
@@ -175,6 +175,7 @@ def gen_large_family(rng, hashseeds):
         m['seed'] = rng.randrange(2 ** 40)
         m['hashseed'] = hashseeds[i % len(hashseeds)]
         m['fs'] = {'write_through': True, 'short_reads': False}
+        m['timeout_s'] = 170           # the estimator is O(rows x distinct values): these runs legitimately take tens of seconds
         members.append(m)
     members.append(copy.deepcopy(members[0]))
     return {'base': base, 'flags': ['large-batch'], 'members': members, 'repeat_of': 0}
